@@ -241,7 +241,19 @@ func (d *describer) describe(v ssa.Value) *Node {
 				}
 			}
 		}
-		return mk("extract", fmt.Sprint(v.Index), d.D(v.Tuple))
+		ex := mk("extract", fmt.Sprint(v.Index), d.D(v.Tuple))
+		if call, ok := v.Tuple.(*ssa.Call); ok && !call.Call.IsInvoke() && d.eng != nil {
+			if f, ok := call.Call.Value.(*ssa.Function); ok {
+				if rs := d.eng.valueHelperResults(f); v.Index < len(rs) && len(rs) > 1 {
+					var args []*Node
+					for _, a := range call.Call.Args {
+						args = append(args, d.D(a))
+					}
+					ex.Alt = rs[v.Index].Subst(args)
+				}
+			}
+		}
+		return ex
 	case *ssa.Phi:
 		var kids []*Node
 		seen := map[string]bool{}
@@ -423,6 +435,9 @@ func (d *describer) call(c *ssa.CallCommon) *Node {
 		}
 		n := mk("call", SSAFuncName(f), args...)
 		n.Fn = f
+		if vh := d.eng.valueHelper(f); vh != nil {
+			n.Alt = vh.Subst(args)
+		}
 		return n
 	case *ssa.Builtin:
 		return mk("call", f.Name(), args...)
@@ -595,6 +610,136 @@ func (e *Engine) accessor(f *ssa.Function) *Node {
 	}
 	e.acc[f] = n
 	return n
+}
+
+// valueHelper: a private function with ONE call site in its package, one
+// non-error result, a single return and no writes is what "extract these
+// lines into a helper" produces for a computed value. It is transparent: the
+// call is described by the returned expression over the arguments, so facts
+// and patterns do not depend on whether the computation is written inline.
+func (e *Engine) valueHelper(f *ssa.Function) *Node {
+	rs := e.valueHelperResults(f)
+	if len(rs) != 1 {
+		return nil
+	}
+	return rs[0]
+}
+
+// valueHelperResults: one expression per result (several returns merge into a φ
+// in return order, as the inlined code's join would).
+func (e *Engine) valueHelperResults(f *ssa.Function) []*Node {
+	if e == nil || f == nil {
+		return nil
+	}
+	if n, ok := e.vh[f]; ok {
+		return n
+	}
+	if e.vh == nil {
+		e.vh = map[*ssa.Function][]*Node{}
+	}
+	e.vh[f] = nil // cuts recursion
+	obj := f.Object()
+	if obj == nil || obj.Exported() || f.Parent() != nil || !e.canExpand(f) || len(f.Blocks) == 0 || len(f.FreeVars) > 0 {
+		return nil
+	}
+	res := f.Signature.Results()
+	if res.Len() == 0 || res.Len() > 3 {
+		return nil
+	}
+	for i := 0; i < res.Len(); i++ {
+		if isErrorType(res.At(i).Type()) {
+			return nil
+		}
+	}
+	var rets []*ssa.Return
+	for _, b := range f.Blocks {
+		for _, p := range b.Preds {
+			if b.Dominates(p) {
+				return nil // a loop: the value is not an expression over the arguments
+			}
+		}
+		for _, in := range b.Instrs {
+			switch x := in.(type) {
+			case *ssa.Return:
+				rets = append(rets, x)
+			case *ssa.Store, *ssa.Send, *ssa.Go, *ssa.Defer, *ssa.MapUpdate, *ssa.Panic, *ssa.Select, *ssa.RunDefers:
+				return nil
+			}
+		}
+	}
+	if len(rets) == 0 || len(rets) > 4 || e.callSitesInPkg(f) != 1 {
+		return nil
+	}
+	sort.Slice(rets, func(i, j int) bool { return rets[i].Pos() < rets[j].Pos() })
+	d := newDescriber(e, f, nil)
+	out := make([]*Node, res.Len())
+	for k := 0; k < res.Len(); k++ {
+		var kids []*Node
+		seen := map[string]bool{}
+		for _, r := range rets {
+			n := d.D(r.Results[k])
+			if !seen[n.String()] {
+				seen[n.String()] = true
+				kids = append(kids, n)
+			}
+		}
+		if len(kids) == 1 {
+			out[k] = kids[0]
+		} else {
+			out[k] = mk("phi", "", kids...)
+		}
+	}
+	e.vh[f] = out
+	return out
+}
+
+// callSitesInPkg counts the static call sites of f in its own package.
+func (e *Engine) callSitesInPkg(f *ssa.Function) int {
+	if f.Pkg == nil {
+		return 0
+	}
+	if e.sites == nil {
+		e.sites = map[*ssa.Package]map[*ssa.Function]int{}
+	}
+	m, ok := e.sites[f.Pkg]
+	if !ok {
+		m = map[*ssa.Function]int{}
+		var visit func(g *ssa.Function)
+		seen := map[*ssa.Function]bool{}
+		visit = func(g *ssa.Function) {
+			if g == nil || seen[g] {
+				return
+			}
+			seen[g] = true
+			for _, b := range g.Blocks {
+				for _, in := range b.Instrs {
+					if ci, ok := in.(ssa.CallInstruction); ok {
+						if h := ci.Common().StaticCallee(); h != nil {
+							m[h]++
+						}
+					}
+				}
+			}
+			for _, a := range g.AnonFuncs {
+				visit(a)
+			}
+		}
+		for _, mem := range f.Pkg.Members {
+			switch x := mem.(type) {
+			case *ssa.Function:
+				visit(x)
+			case *ssa.Type:
+				for _, t := range []types.Type{x.Type(), types.NewPointer(x.Type())} {
+					ms := f.Prog.MethodSets.MethodSet(t)
+					for i := 0; i < ms.Len(); i++ {
+						visit(f.Prog.MethodValue(ms.At(i)))
+					}
+				}
+			}
+		}
+		e.sites[f.Pkg] = m
+	}
+	return m[f]
 }
 
 // pureExprs: a function whose single block only computes arithmetic over its
